@@ -179,6 +179,68 @@ theorem decode_eq_causal (cfg : AttnCfg Q K V B S O) (h : SeesOnlyVisible cfg) (
   have := aux_decode cfg h bias user zero L steps [] (by simpa using hL)
   simpa [Cache.init, attnWhole] using this
 
+private theorem aux_set_mid' {β : Type} (a b : List β) (x y : β) : (a ++ x :: b).set a.length y = a ++ y :: b := by
+  induction a with
+  | nil => rfl
+  | cons c a ih => simp [ih]
+
+private theorem aux_decode_any (cfg : AttnCfg Q K V B S O) (h : SeesOnlyVisible cfg) (bias : Nat → Nat → B)
+    (user : Nat → Nat → Bool) (rest : List (Q × (K × V))) :
+    ∀ (done tail : List (K × V)), rest.length ≤ tail.length →
+      decodeRun cfg bias user ⟨done ++ tail, done.length⟩ rest =
+        attnWholeFrom cfg (done ++ rest.map Prod.snd) bias (causal user) done.length (rest.map Prod.fst) := by
+  induction rest with
+  | nil => intro done tail _; simp [decodeRun, attnWholeFrom]
+  | cons s r ih =>
+    intro done tail hL
+    obtain ⟨q, kv⟩ := s
+    cases tail with
+    | nil => simp at hL
+    | cons x tail' =>
+      simp only [List.length_cons] at hL
+      have hmin : min done.length ((done ++ x :: tail').length - 1) = done.length := by simp
+      have hw : (Cache.write ⟨done ++ x :: tail', done.length⟩ kv : Cache K V) =
+          ⟨(done ++ [kv]) ++ tail', (done ++ [kv]).length⟩ := by
+        simp only [Cache.write, hmin, aux_set_mid']
+        simp
+      simp only [decodeRun, decodeStep, attnWholeFrom, List.map_cons, hw]
+      congr 1
+      · unfold attnRow
+        apply h
+        have e1 : done ++ kv :: r.map Prod.snd = (done ++ [kv]) ++ r.map Prod.snd := by simp
+        rw [e1, aux_slotsFrom_append, aux_slotsFrom_append (a := done ++ [kv]), aux_rowOf_append, aux_rowOf_append,
+          aux_visible_append, aux_visible_append]
+        have hc : (fun j => decide (j ≤ done.length) && user done.length j) = causal user done.length := rfl
+        rw [hc, aux_visible_masked (l := tail'), aux_visible_masked (l := r.map Prod.snd)]
+        · intro k _; simp [causal]; omega
+        · intro k _; simp [causal]; omega
+      · have := ih (done ++ [kv]) tail' (by omega)
+        simpa using this
+
+/-- **Not-yet-written cache slots are inert**: whatever the `max_length` cache slots hold before decoding starts
+(zeros as `init` leaves them, or any junk), feeding `T ≤ max_length` positions gives the outputs of the
+whole-sequence run under `causal ∧ user mask` — the cache-validity mask `arange(max_length) <= cache_index` is
+*combined* with the caller's mask, never replaced by it. -/
+theorem decode_unwritten_slots_inert (cfg : AttnCfg Q K V B S O) (h : SeesOnlyVisible cfg) (bias : Nat → Nat → B)
+    (user : Nat → Nat → Bool) (junk : List (K × V)) (steps : List (Q × (K × V))) (hL : steps.length ≤ junk.length) :
+    decodeRun cfg bias user ⟨junk, 0⟩ steps =
+      attnWhole cfg (steps.map Prod.fst) (steps.map Prod.snd) bias (causal user) := by
+  have := aux_decode_any cfg h bias user steps [] junk hL
+  simpa [attnWhole] using this
+
+/-- **Decode step `t` with a user mask = row `t` of the whole-sequence run under (causal ∧ user mask)**: the
+output of the call made when `cache_index = t` is attention of query `t` over the keys/values fed so far *and
+later* (`kvs` is the whole sequence), with mask `j ≤ t ∧ user t j` and bias row `t` — for padding masks, arbitrary
+per-step masks and masks that already encode `≤ t` alike, from any initial cache content. -/
+theorem decode_step_eq_row_with_mask (cfg : AttnCfg Q K V B S O) (h : SeesOnlyVisible cfg) (bias : Nat → Nat → B)
+    (user : Nat → Nat → Bool) (junk : List (K × V)) (steps : List (Q × (K × V))) (hL : steps.length ≤ junk.length)
+    (t : Nat) :
+    (decodeRun cfg bias user ⟨junk, 0⟩ steps)[t]? =
+      ((steps.map Prod.fst)[t]?).map fun q =>
+        attnRow cfg q (steps.map Prod.snd) (bias t) (fun j => decide (j ≤ t) && user t j) := by
+  rw [decode_unwritten_slots_inert cfg h bias user junk steps hL, attn_whole_row]
+  rfl
+
 /-- the same statement without any assumption on softmax: at every step the list of allowed
 (logit, value) pairs handed to the row function is that of row `t` of the causal whole-sequence computation -/
 theorem decode_visible_eq_causal (score : Q → K → S) (addBias : S → B → S) (bias : Nat → Nat → B)
@@ -282,6 +344,12 @@ example : (selfAttn sumCfg (fun x : Int => x + 1) (fun x => 2 * x) (fun x => x *
         | 2, _ => rfl
         | j + 3, _ => rfl)
     (by intro i j _ hj; simpa using hj) 2 (by decide)
+
+-- decode_step_eq_row_with_mask: a key-padding mask [1,1,1,0] over 4 cache slots holding junk: step 0 sees slot 0 only
+example : (decodeRun sumCfg (fun _ _ => 0) (fun _ j => decide (j < 3)) ⟨[(9, 9), (9, 9), (9, 9), (9, 9)], 0⟩
+      [(1, (2, 3)), (4, (5, 6))])[0]? = some 6 ∧
+    (decodeRun sumCfg (fun _ _ => 0) (fun _ j => decide (j < 3)) ⟨[(9, 9), (9, 9), (9, 9), (9, 9)], 0⟩
+      [(1, (2, 3)), (4, (5, 6))])[1]? = some 144 := by decide
 
 -- decode_eq_causal: three steps through a cache of max_length 4, user mask hiding position 0 from step 2
 example : decodeRun sumCfg (fun _ _ => 0) (fun i j => !(decide (i = 2) && decide (j = 0))) (Cache.init (0, 0) 4)
